@@ -12,7 +12,7 @@ CHECKS = {
     "C07": dict(text="seeded histories (assume/pop/next/check/simplify_db/fill-to-total-assignment) over mixed SAT+LRA+IDL+RDL+OV networks on Debug and Release builds; after every step z3 decides whether every assigned literal follows from all clauses seen through the new_clause hook, the hook-reported meaning of every theory literal, the no-goods next() adds and the standing decisions; every false answer is compared with satisfiability, every learnt clause and theory conflict is checked for entailment, every complete assignment is evaluated against all clauses",
                 note="trusts z3 on the small formulas the harness wrote itself and the hook events for which clauses/literals exist; incompleteness is never reported",
                 technique="runtime monitoring: online entailment checking of observed state and hook events against an SMT reference model"),
-    "C08": dict(text="pop-heavy histories; LRA bounds recomputed from the assigned assertion literals after every step, DL matrices compared with the closure of the assigned constraints after every step, and mixed networks compared at checkpoints with a twin network (same construction, only the standing decisions) - literal values at root, full theory state whenever the assigned literals coincide",
+    "C08": dict(text="pop-heavy histories; LRA bounds recomputed from the assigned assertion literals after every step, DL matrices compared with the closure of the assigned constraints after every step, and mixed networks compared at checkpoints with a twin network (same construction, only the standing decisions) - contradicting literal values, full theory state whenever the assigned literals coincide; on the main history: nothing assigned at root level is ever lost, no clause is unit or falsified at an observation, no theory conflict names a literal that is not false",
                 note="LRA values are excluded (pivot-history dependent); above root level a twin may have propagated more theory literals than the main network (incompleteness), which is not judged",
                 technique="runtime monitoring: recomputation of visible state from assigned literals + twin-network differential"),
     "C09": dict(text="seeded LRA systems and assert/negate/retract histories on Debug and Release builds; after every successful step the reported values are checked to be a model (bounds, slack definitions, asserted atoms, eps-strict) with exact arithmetic, z3 confirms feasibility and that no reported bound cuts off a real solution, every refutation is confirmed infeasible, every theory conflict and learnt clause seen through the hooks is validated",
@@ -29,7 +29,7 @@ CHECKS = {
                 technique="runtime monitoring: differential execution against an exact shortest-path reference model"),
     "C14": dict(text="object variables with singleton/identical/nested/disjoint/overlapping domains and repeated equality requests; either all models are enumerated through sat_core::check and compared with set semantics (exactly one value, eq iff same value, all value combinations accepted), or assume/pop histories are run with value() compared after every step with the allows() literals and with the brute-forced set of still possible values",
                 note="trusts the harness's brute-force semantics; variables use the default enforce_exct_one=true",
-                technique="runtime monitoring: exhaustive model enumeration per generated instance + history checking against a set-semantics model"),
+                technique="runtime monitoring: exhaustive model enumeration per generated instance + history checking against a set-semantics model + scale instances (114-124 variables, every pair equated: literal identity and total assignment)"),
     "C13": dict(text="random instances of reified constructs are built on the real sat_core; for each instance ALL models of the network are enumerated through the public API (sat_core::check) and compared with the truth table of the formula, so each instance is decided exhaustively while the space of instances is sampled",
                 note="trusts the harness's truth tables and the enumeration through sat_core::check; instances have at most ~20 propositional variables",
                 technique="runtime monitoring: exhaustive model enumeration per generated instance vs truth table"),
@@ -37,7 +37,7 @@ CHECKS = {
                 note="trusts Python's fractions module and the harness's parsing of the driver output; operands are bounded so that no 64-bit overflow can occur",
                 technique=T_DIFF),
 }
-CHECKS["C16"] = dict(text="(a) thousands of random token streams tokenised by the real lexer and by a reference tokenizer written from the token table; (b) one small valid program per declaration/statement shape must be read; (c) hundreds of programs pinning fresh variables to random constant expression trees (all operators, redundant parentheses, random layout and comments) run through read+solve on Debug and Release builds - the solution must report exactly the value the expression denotes",
+CHECKS["C16"] = dict(text="(a) thousands of random token streams tokenised by the real lexer and by a reference tokenizer written from the token table; (b) one small valid program per declaration/statement shape must be read; (c) hundreds of programs pinning fresh variables to random constant expression trees (all operators, division chains, redundant parentheses, random layout and comments, a method with a return value) run through read+solve on Debug and Release builds - the solution must report exactly the value the expression denotes; (d) the generated valid programs of the constraint and planning families must be accepted (no error other than unsolvable / inconsistent)",
                      note="trusts the reference tokenizer/evaluator; mixing different operators of one precedence level without parentheses, '(x)+1' (a cast) and numerals beyond 64 bits are not generated; typedef is not exercised (semantics undocumented)",
                      technique="runtime monitoring: differential execution of lexer/reader/solver against a reference tokenizer and exact evaluator")
 CHECKS["C01"] = dict(text="generated RIDDLE problems (constraint networks over real/int/bool and over time points handled by difference logic, objects, rules, state variables, resources, unplanted scheduling problems) run through read()+solve() in the configuration matrix h_max/h_add x CHECK_INCONSISTENCIES on/off x Debug/Release; every asserted constraint is evaluated with exact (rational, eps) arithmetic and Kleene booleans on the values the solution JSON exposes and must be True",
@@ -46,22 +46,22 @@ CHECKS["C01"] = dict(text="generated RIDDLE problems (constraint networks over r
 CHECKS["C02"] = dict(text="whenever oRatio answers 'unsolvable' on a generated problem the verdict is compared with ground truth: the planted assignment/plan the problem was built around (re-validated by the reference evaluator / plan checkers), z3 on the constraint-only fragment, and the verdict of the oRatio executable of the same build; generated planning problems are either solvable by construction or (sx family) decided by z3 on the scheduling semantics; every second constraint-network program is also run in an equivalent formulation (independent statements reordered, identifiers renamed, commutative arguments reordered, tautologies added) and must get the same verdict",
                      note="'no solution' is only concluded by z3 on the constraint fragment; timeouts are inconclusive",
                      technique="runtime monitoring: differential verdicts against planted solutions and an SMT reference")
-CHECKS["C17"] = dict(text="generated class hierarchies (single/multiple/diamond inheritance, fields with initialisers, constructors with init lists and super-constructor calls, existential object fields), enums with unions, instances and variables declared in interleaved order and ==/!=/field constraints; a reference object model computes instance sets, field values and (by brute force) all satisfying value combinations, which are compared with the state exposed right after read() and with the solution on Debug and Release builds",
+CHECKS["C17"] = dict(text="generated class hierarchies (single/multiple/diamond inheritance, fields with initialisers, constructors with init lists and super-constructor calls, existential object fields), enums with unions (also with a single own value), predicates with object parameters (narrowing of a supertype variable), instances and variables declared in interleaved order and ==/!=/field constraints (numeric fields read through many-valued variables); a reference object model computes instance sets, field values and (by brute force) all satisfying value combinations, which are compared with the state exposed right after read() and with the solution on Debug and Release builds",
                      note="enum values are identifiable only by identity in the JSON (domains compared by size / inclusion / equality pattern); single-valued enums are not generated",
                      technique="runtime monitoring: differential execution against a reference object model with brute-force constraint semantics")
 _PLAN_NOTE = "trusts the reference checkers over the solution JSON / extract_timelines() / solver_listener events; problems are small (<= ~12 atoms) and built around planted plans; timeouts are inconclusive"
-CHECKS["C03"] = dict(text="generated problems with rules, sub-goals, recursion that terminates only by unification, disjunctions with costs and state-variable timelines; the causal graph recorded through the upstream solver_listener plus the final truth value of every phi/rho and the atom states are checked: every in-plan flaw expanded and resolved, unified atoms map to active atoms of the same predicate with equal arguments, rule sub-goals present and in plan, support acyclic",
+CHECKS["C03"] = dict(text="generated problems with rules, sub-goals, sub-predicates, recursion that terminates only by unification, domains in which goals could only support each other in a circle, disjunctions with costs, state-variable timelines and resource-using activities; the causal graph recorded through the upstream solver_listener plus the final truth value of every phi/rho and the atom states are checked: every in-plan flaw expanded and resolved, unified atoms map to active atoms of the same predicate with equal arguments, rule sub-goals present and in plan, support acyclic",
                      note=_PLAN_NOTE, technique="runtime monitoring: offline checker over the recorded causal-graph event log and the reported plan")
-CHECKS["C04"] = dict(text="state-variable problems built around planted schedules (touching atoms, zero-length atoms, free tau, tight horizons) in the configuration matrix; active atoms per instance compared pairwise with half-open intervals in exact arithmetic and the extracted timeline compared segment by segment",
+CHECKS["C04"] = dict(text="state-variable problems built around planted schedules (touching atoms, zero-length atoms, all-constant atoms, free tau, tight horizons), unplanted scheduling problems (sx), atoms tied across timelines by relative constraints (sync), atoms created inside rules and disjunction branches (task), some read incrementally, and the shipped examples, in the configuration matrix; active atoms per instance compared pairwise with half-open intervals in exact arithmetic and the extracted timeline compared segment by segment",
                      note=_PLAN_NOTE, technique="runtime monitoring: interval-sweep oracle over reported plans and extracted timelines")
-CHECKS["C05"] = dict(text="reusable-resource problems built around planted load profiles (exact fits, zero amounts, several resources, free resource variables); at every atom start the amounts of the covering active Use atoms are summed exactly and compared with the capacity, and every timeline segment's usage with the recomputed sum",
+CHECKS["C05"] = dict(text="reusable-resource problems built around planted load profiles (exact fits, zero amounts, all-constant atoms, several resources, free resource variables), unplanted scheduling problems (sx), Use atoms created inside rules and disjunction branches (task) and the shipped examples; at every atom start the amounts of the covering active Use atoms are summed exactly and compared with the capacity, and every timeline segment's usage with the recomputed sum",
                      note=_PLAN_NOTE, technique="runtime monitoring: conservation/sweep oracle over reported plans and extracted timelines")
-CHECKS["C06"] = dict(text="facts and goals on plain Interval/Impulse predicates, rule sub-goals, agents, state variables and resources with release/deadline constraints and tight horizons; every active temporal atom is checked against origin <= start <= end <= horizon, duration = end - start >= 0 (origin <= at <= horizon)",
+CHECKS["C06"] = dict(text="facts and goals on Interval/Impulse predicates at top level, inside plain / derived / smart-type-derived classes, with empty rule bodies and introduced by rules, agents, state variables, reusable and consumable resources with release/deadline constraints and tight horizons; every active temporal atom is checked against origin <= start <= end <= horizon, duration = end - start >= 0 (origin <= at <= horizon)",
                      note=_PLAN_NOTE, technique="runtime monitoring: direct evaluation of the temporal invariant on every reported atom")
 CHECKS["C18"] = dict(text="three monitors (a tiny program whose solve() does not return within 30 s nor, re-run, within 150 s is a hang): (1) thousands of prefixes / delimiter edits / pathological literals / random byte and token strings given to riddle_parser and solver::read under ASan+UBSan with a 10 s / memory bound per input (thorough: plus libFuzzer on both entry points); (2) every solver-level workload family and the shipped examples through read()+solve() under ASan+UBSan with assertions on and on the Release build; (3) every network-level workload family under ASan+UBSan with assertions on and LeakSanitizer; any signal, abort, std::terminate, sanitizer report, failed assertion, reader non-termination or network-layer leak is a violation",
                      note="a clean sanitizer run is not memory safety; solver search that exceeds the budget is inconclusive; UBSan vptr is off (deliberate construction idiom) and signed overflow is logged only; leaks are judged for the network layer only",
                      technique="runtime monitoring: compiler sanitizers + assertion builds + watchdogs over hostile reader inputs and the other properties' workloads")
-CHECKS["C19"] = dict(text="solved timeline problems (state variables, resources, interval/impulse predicates, agents; integer and fractional times) executed tick by tick with units_per_tick in {1/2, 1, 3/2, 2, 5} by a seeded scripted client that delays random starts/ends and reports failures; the executor_listener event log is checked by a per-atom state machine (time advance, exactly-once start/end in order, not before the planned time, not against the client's last answer, frozen values never move) and the plan after every tick by the C04/C05/C06 checkers, on Debug and Release builds",
+CHECKS["C19"] = dict(text="solved timeline problems (state variables, resources, interval/impulse predicates, agents, atoms tied across timelines by relative temporal constraints, activities that use resources through their rules; integer and fractional times) executed tick by tick with units_per_tick in {1/2, 1, 3/2, 2, 5} by a seeded scripted client that delays random starts/ends and reports failures; the executor_listener event log is checked by a per-atom state machine (time advance, exactly-once start/end in order, not before the planned time, not against the client's last answer, frozen values never move) and the plan after every tick by the C04/C05/C06 checkers, on Debug and Release builds",
                      note="liveness is restated as bounded progress (by horizon + a few ticks); execution_exception is a reported outcome that ends a history; histories that exceed 60 s are inconclusive",
                      technique="runtime monitoring: offline checker over the recorded executor event log with injected delays and failures")
 CHECKS["C20"] = dict(text="dense LRA call sequences (one pivot fans out into many row-update tasks) executed on the PARALLELIZE=OFF build and on the PARALLELIZE=ON build with thread-pool sizes 1/2/4/16 and seeded yields/sleeps injected at the start and end of every row-update task (pivot_task hook); every observable (results, values, bounds, learnt clauses, theory conflicts, in order) must equal the sequential run and the run must terminate; the same workload runs under ThreadSanitizer (own build) and every report with a frame in the repository is a violation; the evidence reports tasks executed, observed concurrency and distinct completion orders",
